@@ -25,13 +25,69 @@ class Key:
         return 'Key(%s,%s,%s)' % (self.a, self.b, 'ordered' if self.ordered else 'raw')
 
 
+class _EvView:
+    """events of a function plus the imported events of the open helpers it calls"""
+
+    def __init__(self, base, extra):
+        self._base = base
+        self.events = sorted(list(base.events) + extra, key=lambda e: e.node)
+        self.unknown = base.unknown
+        self.tt = base.tt
+        self.fn = base.fn
+
+    def role(self, t):
+        return self._base.role(t)
+
+    def of_kind(self, *prefixes):
+        return [e for e in self.events if any(e.kind == p or e.kind.startswith(p) for p in prefixes)]
+
+    def state_writes(self):
+        return [e for e in self.events if e.kind not in ('L.read', 'L.count', 'L.ref')]
+
+
+OPEN_HELPERS = {}      # id(model) -> {id(fn): fn} helpers whose obligations are discharged by their callers
+NO_INLINE = {LDG + '::_setLabel', LUG + '::setLabel'}
+
+
+def imported_events(m, fn, depth=0):
+    """events of open helpers called on this object, with parameters substituted by the call's arguments and located
+    at the call (so that they take the control region of the call)"""
+    out = []
+    if depth > 3:
+        return out
+    base = events_of(m, fn)
+    opens = OPEN_HELPERS.get(id(m), {})
+    for nid, g in m.callees(fn):
+        n = fn.nodes[nid]
+        if n['k'] != 'CXXMemberCallExpr' or id(g) not in opens or g.tname in NO_INLINE:
+            continue
+        if base.tt.t(n.get('obj', -1)) != ('this',):
+            continue
+        sub = {}
+        for ix, pd in enumerate(g.params):
+            if ix < len(n.get('args', [])):
+                sub[('var', pd)] = base.tt.t(n['args'][ix])
+        gev = events_of(m, g)
+        inner = list(gev.events) + imported_events(m, g, depth + 1)
+        for e in inner:
+            cond = bool(g.region(e.node)) or e.extra.get('conditional', False)
+            ex = dict(e.extra)
+            ex.update(via=g.display(), conditional=cond, inner_node=e.node)
+            if 'owner' in ex:
+                ex['owner'] = ex['owner']
+            out.append(Ev(e.kind, nid, tuple(subst(a, sub) if isinstance(a, tuple) else a for a in e.args), fn, ex))
+    return out
+
+
 class Ctx:
     """Per-function context: terms, events, equality facts."""
 
     def __init__(self, m, fn):
         self.m = m
         self.fn = fn
-        self.ev = events_of(m, fn)
+        base = events_of(m, fn)
+        extra = imported_events(m, fn)
+        self.ev = _EvView(base, extra) if extra else base
         self.tt = self.ev.tt
         self.cls = fn.record
         self.undirected = self.cls in UNDIRECTED_FAMILY
@@ -49,13 +105,20 @@ class Ctx:
         if b in self._eq_cache:
             return self._eq_cache[b]
         facts = []
-        for (bb, ix) in f.dominating_edges(b):
-            a = f.branch_atom(bb)
-            if a is None:
-                continue
-            t = self.tt.t(a)
-            if t[0] == 'bin' and ((t[1] == '==' and ix == 0) or (t[1] == '!=' and ix == 1)):
-                facts.append((t[2], t[3]))
+        for dep in f.dominating_edges(b):
+            for t in self.true_terms(dep):
+                if t[0] == 'bin' and t[1] == '==':
+                    facts.append((t[2], t[3]))
+                # j = std::find(X.begin(), X.end(), v) and j != X.end()  =>  *j == v
+                if t[0] == 'bin' and t[1] == '!=':
+                    for it, other in ((t[2], t[3]), (t[3], t[2])):
+                        if it[0] == 'var' and other[0] == 'mcall' and other[1].endswith(('::end', '::cend')):
+                            defs = [d for d in var_defs(f, it[1]) if d[1] >= 0]
+                            if len(defs) == 1:
+                                dt = self.tt.t(defs[0][1])
+                                if dt[0] == 'call' and dt[1] == 'std::find' and len(dt[2]) == 3 and \
+                                        dt[2][1][0] == 'mcall' and dt[2][1][2] == other[2]:
+                                    facts.append((('deref', it), dt[2][2]))
         self._eq_cache[b] = facts
         return facts
 
@@ -144,10 +207,72 @@ class Ctx:
 
     def dep_term(self, dep):
         a = self.fn.branch_atom(dep[0])
-        return self.tt.t(a) if a is not None else None, dep[1] == 0
+        return self.resolve(self.tt.t(a)) if a is not None else None, dep[1] == 0
+
+    def true_terms(self, dep):
+        """atoms that hold on the branch edge `dep` (with single-definition locals resolved)"""
+        a = self.fn.branch_atom(dep[0])
+        if a is None:
+            return []
+        return [self.resolve(x) for x in true_atoms(self.tt.t(a), dep[1] == 0)]
+
+    def resolve(self, t, depth=0):
+        """replace locals that have exactly one definition by their defining term"""
+        if depth > 6 or not isinstance(t, tuple):
+            return t
+        if t[0] == 'var':
+            d = self.fn.unit.decl(t[1])
+            if d['dk'] == 'Var' and d.get('ctype') in ('bool', 'const bool'):
+                defs = var_defs(self.fn, t[1])
+                if len(defs) == 1 and defs[0][1] >= 0:
+                    return self.resolve(self.tt.t(defs[0][1]), depth + 1)
+            return t
+        out = []
+        for x in t:
+            if isinstance(x, tuple):
+                if x and isinstance(x[0], str):
+                    out.append(self.resolve(x, depth + 1))
+                else:
+                    out.append(tuple(self.resolve(y, depth + 1) if isinstance(y, tuple) else y for y in x))
+            else:
+                out.append(x)
+        return tuple(out)
 
     def desc(self, nid):
         return '%s@%s' % (self.fn.expr_text(nid)[:70], self.fn.nloc(nid).split('/')[-1])
+
+
+NEG_OP = {'>': '<=', '<': '>=', '>=': '<', '<=': '>', '==': '!=', '!=': '=='}
+
+
+def strip_conv_t(t):
+    while isinstance(t, tuple) and t and t[0] in ('conv', 'cast'):
+        t = t[2]
+    return t
+
+
+def pos_atom(t, pol):
+    """the term that is TRUE when the branch is taken with polarity pol: comparisons are flipped, not negated"""
+    t0 = strip_conv_t(t)
+    if pol:
+        return t0
+    if t0[0] == 'bin' and t0[1] in NEG_OP:
+        return ('bin', NEG_OP[t0[1]], t0[2], t0[3])
+    if t0[0] == 'un' and t0[1] == '!':
+        return strip_conv_t(t0[3])
+    return ('un', '!', False, t0)
+
+
+def true_atoms(t, pol):
+    """all atoms known to be true on a branch edge: (A && B) true gives A, B; (A || B) false gives !A, !B"""
+    t0 = strip_conv_t(t)
+    if t0[0] == 'bin' and t0[1] == '&&' and pol:
+        return true_atoms(t0[2], True) + true_atoms(t0[3], True)
+    if t0[0] == 'bin' and t0[1] == '||' and not pol:
+        return true_atoms(t0[2], False) + true_atoms(t0[3], False)
+    if t0[0] == 'un' and t0[1] == '!':
+        return true_atoms(t0[3], not pol)
+    return [pos_atom(t0, pol)]
 
 
 def subst(t, sub):
@@ -308,6 +433,27 @@ def _dedupe_context(ctx, ev):
     branch and being fresh for every vertex."""
     f = ctx.fn
     cur = _erase_cursor(ev)
+    # form 2: if (seen.insert(*j).second) keep; else erase   (test and insertion in one call)
+    for dep in ctx.region(ev.node):
+        for pt in ctx.true_terms(dep):
+            x = pt
+            if x[0] == 'un' and x[1] == '!':
+                x = strip_conv_t(x[3])
+                if x[0] == 'member' and x[2].endswith('::second') and x[1][0] == 'mcall' and \
+                        x[1][1].split('::')[-1] == 'insert' and x[1][2][0] == 'var' and x[1][3] and x[1][3][0] == ('deref', cur):
+                    seen = x[1][2][1]
+                    loops = _is_full_vertex_loop(ctx, ev.node)
+                    if loops and any(dn in set(f.descendants(loops[-1][0])) for (dn, rhs) in var_defs(f, seen)):
+                        return dict(seen=seen, dep=dep)
+                    # declared outside the vertex loop: must be cleared once per vertex
+                    if loops:
+                        body = set(f.descendants(loops[-1][0]))
+                        for n in f.nodes:
+                            if n['k'] == 'CXXMemberCallExpr' and 'callee' in n and f.unit.decl(n['callee'])['name'] == 'clear' and \
+                                    ctx.tt.t(n.get('obj', -1)) == ('var', seen) and n['i'] in body:
+                                lw = _list_loop_of(ctx, ev)
+                                if lw is None or n['i'] not in set(f.descendants(lw)):
+                                    return dict(seen=seen, dep=dep)
     for dep in ctx.region(ev.node):
         t, pol = ctx.dep_term(dep)
         if t is None:
@@ -412,8 +558,9 @@ def _benign_extra(ctx, deps, ev=None, pair=None):
         if t is None:
             return False, notes
         ok = False
-        if ev is not None and ev.kind == 'A.removeAll' and t[0] == 'bin' and t[1] in ('>', '!=') and t[3] == ('int', 0) \
-                and pol and removed_count_term(ctx, ev, t[2]):
+        pt = pos_atom(t, pol)
+        if ev is not None and ev.kind == 'A.removeAll' and pt[0] == 'bin' and pt[1] in ('>', '!=') and \
+                strip_cast(pt[3]) == ('int', 0) and removed_count_term(ctx, ev, strip_cast(pt[2])):
             ok = True
             notes.append('guard removedCount>0')
         elif pair is not None:
@@ -451,8 +598,22 @@ class PairEngine:
     def R(self, rule):
         return self.results[rule]
 
-    def fail(self, rule, ctx, site, nid, msg, detail=None):
+    def fail(self, rule, ctx, site, nid, msg, detail=None, cands=None, classify=None):
         f = ctx.fn
+        # three-way verdict: a violation needs either no candidate companion at all or only candidates that are
+        # recognisably about a different pair / amount; candidates the engine cannot relate make it inconclusive
+        if cands is not None:
+            kinds = [classify(c) if classify else 'unknown' for c in cands]
+            if any(k == 'unknown' for k in kinds):
+                self.R(rule).obligations += 1
+                self.R(rule).broken('%s: %s in %s: a possible companion (%s) is in a form the rule cannot relate to the event' % (
+                    rule, site, f.display(), ctx.desc(cands[kinds.index('unknown')].node)))
+                return
+        if any(e.extra.get('conditional') for e in ctx.ev.events):
+            self.R(rule).obligations += 1
+            self.R(rule).broken('%s: %s in %s involves a helper whose updates are conditional inside the helper' % (
+                rule, site, f.display()))
+            return
         # a companion may hide in a mutation form the vocabulary does not model: then the pairing cannot be decided
         unknown = list(ctx.ev.unknown)
         for _, g in self.m.callees(f):
@@ -473,11 +634,14 @@ class PairEngine:
     # --------------------------------------------------------------------------------------------
     def run(self):
         m = self.m
+        self._find_open_helpers()
         for f in m.fns:
             if f.record not in GRAPH_CLASSES or f.is_lambda or f.is_const:
                 continue
             if self.classes is not None and f.record not in self.classes:
                 continue
+            if id(f) in OPEN_HELPERS.get(id(m), {}):
+                continue       # its events are checked in the callers
             ctx = Ctx(m, f)
             for nid, why in ctx.ev.unknown:
                 self.R('F-PAIR.U').sites += 1
@@ -486,6 +650,30 @@ class PairEngine:
             self.check_function(ctx)
         for r in self.results.values():
             pass
+
+    def _find_open_helpers(self):
+        """Non-public helpers that are not self-contained (their own pairing fails, or they only update counters /
+        labels without touching a list): their events are imported into the callers instead."""
+        m = self.m
+        if id(m) in OPEN_HELPERS:
+            return
+        OPEN_HELPERS[id(m)] = {}
+        helpers = [f for f in m.fns if f.record in GRAPH_CLASSES and not f.is_lambda and not f.is_const and not f.is_ctor and
+                   f.access in ('private', 'protected') and f.tname not in NO_INLINE]
+        for f in helpers:
+            ev = events_of(m, f)
+            writes = [e for e in ev.state_writes()]
+            if not writes:
+                continue
+            has_A = any(e.kind.startswith('A.') for e in ev.events)
+            probe = PairEngine.__new__(PairEngine)
+            probe.m = m
+            probe.classes = None
+            probe.results = {r: RuleResult(r, '') for r in self.results}
+            probe.check_function(Ctx(m, f))
+            failed = any(r.findings or r.inconclusive for r in probe.results.values())
+            if failed or not has_A:
+                OPEN_HELPERS[id(m)][id(f)] = f
 
     def check_function(self, ctx):
         f = ctx.fn
@@ -513,6 +701,62 @@ class PairEngine:
         self.check_calls(ctx)
         if ctx.undirected:
             self.check_keys(ctx)
+
+    # -------------------------------------------------------------------------------------------- classifiers
+    def cls_key(self, ctx, x, y, reader=False):
+        """classifier for label-store companions: same pair (but not accepted, i.e. wrong region) or unresolved key ->
+        unknown; a resolved key about another pair -> different"""
+        def f(c):
+            k = ctx.label_read(strip_cast(c.args[0]), c.node) if reader else ctx.key_of(c.args[0], c.node)
+            if reader and k is None:
+                t = strip_cast(c.args[0])
+                if t[0] == 'bin' and t[1] == '*':
+                    k = ctx.label_read(strip_cast(t[2]), c.node) or ctx.label_read(strip_cast(t[3]), c.node)
+            if k is None:
+                return 'unknown'
+            simple = all(z[0] in ('var', 'deref', 'member', 'int') for z in (k.a, k.b))
+            if not simple:
+                return 'unknown'
+            if ctx.key_matches_pair(k, x, y) or (isinstance(y, tuple) and y[0] == 'deref' and ctx.key_matches_pair(k, x, ctx.norm(y, c.node))):
+                return 'unknown'
+            return 'different'
+        return f
+
+    def cls_count(self, ctx, ev, pair=None):
+        def f(c):
+            if ev.kind == 'A.removeAll':
+                if c.kind == 'N.dec':
+                    return 'different'
+                if c.kind == 'N.sub':
+                    return 'unknown'
+                return 'different'
+            # erase / push expect +-1
+            if c.kind in ('N.dec', 'N.inc'):
+                extra_c, extra_e = ctx.region_diff(c.node, ev.node)
+                if extra_e:
+                    return 'unknown'
+                if pair is not None and extra_c and ctx.undirected:
+                    verdicts = [once_per_pair(ctx.dep_term(d)[0], pair[0], pair[1], ctx.dep_term(d)[1]) for d in extra_c
+                                if ctx.dep_term(d)[0] is not None]
+                    if verdicts and all(v is False for v in verdicts):
+                        return 'different'
+                    return 'unknown'
+                if pair is not None and extra_c:
+                    # directed family: every erased entry is an edge of its own, so a guard on the decrement that is
+                    # false for some ordering of (x, *it) leaves removed edges uncounted
+                    for d in extra_c:
+                        t, pol = ctx.dep_term(d)
+                        if t is None:
+                            return 'unknown'
+                        vals = [eval_order(t, {pair[0]: va, pair[1]: vb}) for (va, vb) in ORDERINGS]
+                        if None in vals:
+                            return 'unknown'
+                        if any(bool(v) != pol for v in vals):
+                            return 'different'
+                    return 'unknown'
+                return 'unknown' if extra_c else 'different'
+            return 'unknown'
+        return f
 
     # -------------------------------------------------------------------------------------------- helpers
     def companions(self, ctx, kindprefix):
@@ -626,7 +870,8 @@ class PairEngine:
         else:
             self.fail('F-PAIR.N', ctx, site + ' <-> edgeNumber -= removed', e.node,
                       'all copies of an edge are removed from a list but the edge count is not reduced by the number '
-                      'of removed entries of that list (size before - size after) in the same control region')
+                      'of removed entries of that list (size before - size after) in the same control region',
+                      cands=[c for c in self.companions(ctx, 'N.') if c.kind in ('N.sub', 'N.dec')], classify=self.cls_count(ctx, e))
         if ctx.labelled:
             self.R('F-PAIR.L').sites += 1
             er = []
@@ -644,7 +889,8 @@ class PairEngine:
             else:
                 self.fail('F-PAIR.L', ctx, site + ' <-> label erase', e.node,
                           'all copies of an edge are removed but the label entry of the pair is not erased in the '
-                          'same control region: the label outlives its edge')
+                          'same control region: the label outlives its edge',
+                          cands=self.companions(ctx, 'L.erase') + self.companions(ctx, 'L.clear'), classify=self.cls_key(ctx, x, y))
         if ctx.has_total:
             self.R('F-PAIR.T').sites += 1
             good = []
@@ -666,7 +912,9 @@ class PairEngine:
             else:
                 self.fail('F-PAIR.T', ctx, site + ' <-> total -= label*removed', e.node,
                           'all copies of an edge are removed but the running total is not reduced by label(pair) x '
-                          'removed copies, read before the label is erased, in the same control region')
+                          'removed copies, read before the label is erased, in the same control region',
+                          cands=[c for c in self.companions(ctx, 'T.') if c.kind in ('T.sub', 'T.set')],
+                          classify=self.cls_key(ctx, x, y, reader=True))
 
     # -------------------------------------------------------------------------------------------- eraseIt
     def check_erase(self, ctx, e):
@@ -702,7 +950,9 @@ class PairEngine:
                       'a list entry is erased but the edge count is not decremented exactly once per removed edge '
                       '(%s form%s)' % (e.extra['form'], ': the decrement must sit under a guard that is true for exactly '
                                        'one of the two half-edges and for loops' if want_guard else
-                                       ': the decrement must be in the same control region'))
+                                       ': the decrement must be in the same control region'),
+                      cands=[c for c in self.companions(ctx, 'N.') if c.kind in ('N.dec', 'N.sub')],
+                      classify=self.cls_count(ctx, e, pair))
         if ctx.labelled and not dedupe:
             self.R('F-PAIR.L').sites += 1
             er = []
@@ -736,7 +986,9 @@ class PairEngine:
             else:
                 self.fail('F-PAIR.L', ctx, site + ' <-> label erase', e.node,
                           'a list entry is erased (%s form) but the label entry of the same pair is not erased in the '
-                          'same control region: the label outlives its edge' % e.extra['form'])
+                          'same control region: the label outlives its edge' % e.extra['form'],
+                          cands=self.companions(ctx, 'L.erase') + self.companions(ctx, 'L.clear'),
+                          classify=self.cls_key(ctx, x, ('deref', cur)))
         elif ctx.labelled and dedupe:
             self.R('F-PAIR.L').sites += 1
             self.ok('F-PAIR.L', ctx, dict(function=f.display(), event=ctx.desc(e.node), form='dedupe',
@@ -780,7 +1032,9 @@ class PairEngine:
             else:
                 self.fail('F-PAIR.T', ctx, site + ' <-> total -= label', e.node,
                           'a list entry is erased but the running total is not reduced by the label of the same pair '
-                          'exactly once per removed edge, before the label is erased%s' % why)
+                          'exactly once per removed edge, before the label is erased%s' % why,
+                          cands=None if why else [c for c in self.companions(ctx, 'T.') if c.kind in ('T.sub', 'T.set')],
+                          classify=self.cls_key(ctx, x, ('deref', cur), reader=True))
 
     # -------------------------------------------------------------------------------------------- clear
     def check_clear(self, ctx, e):
@@ -804,16 +1058,62 @@ class PairEngine:
                 self.fail('F-PAIR.N', ctx, site + ' <-> edgeNumber -= size()', e.node,
                           'a single adjacency list is cleared but the edge count is not reduced by the length of that list '
                           '(read before the clear) in the same control region')
+            # per-entry companions: a range-for over the same list, in the region of the clear and before it, whose body
+            # (unconditionally) erases the key (x, entry) / subtracts its label
+            entry_loops = []
+            for n in f.nodes:
+                if n['k'] == 'CXXForRangeStmt':
+                    r = ctx.tt.t(n['rangeinit'])
+                    if r[0] == 'mcall' and r[1].endswith(('::getOutNeighbours', '::getNeighbours')) and r[2] == ('this',):
+                        r = ('idx', ('field', next(iter(self.m.role_field['A']))), r[3][0])
+                    if r[0] == 'idx' and ctx.ev.role(r[1]) == 'A' and r[2] == x and \
+                            self._loop_region(ctx, n['i']) == ctx.region(e.node) and f.can_reach_forward(n['rangestmt'], e.node):
+                        entry_loops.append(n)
+
+            def in_entry_loop(c, want_key=True):
+                for n in entry_loops:
+                    if c.node in set(f.descendants(n['body'])):
+                        lv = ('var', n['loopvar'])
+                        body_first = [d for d in f.descendants(n['body']) if d in f.pos]
+                        base = min((f.region_of_block(f.pos[d][0]) for d in body_first), key=len) if body_first else frozenset()
+                        if ctx.region(c.node) == base:
+                            return lv
+                return None
             if ctx.labelled:
                 self.R('F-PAIR.L').sites += 1
-                self.fail('F-PAIR.L', ctx, site + ' <-> label erase of every cleared entry', e.node,
+                done = False
+                for c in self.companions(ctx, 'L.erase'):
+                    lv = in_entry_loop(c)
+                    if lv is not None and ctx.key_matches_pair(ctx.key_of(c.args[0], c.node), x, lv):
+                        self.ok('F-PAIR.L', ctx, dict(function=f.display(), event=ctx.desc(e.node), companion=ctx.desc(c.node),
+                                                      form='single list cleared after a loop that erases the label of every entry'))
+                        done = True
+                        break
+                if done:
+                    pass
+                else:
+                    self.fail('F-PAIR.L', ctx, site + ' <-> label erase of every cleared entry', e.node,
                           'a whole adjacency list is cleared with clear(): the labels of the edges it held are not erased '
                           '(no per-entry erase of the keys (%s, *)): they outlive their edges' % show(x, f.unit))
             if ctx.has_total:
                 self.R('F-PAIR.T').sites += 1
-                self.fail('F-PAIR.T', ctx, site + ' <-> total -= labels of the cleared entries', e.node,
-                          'a whole adjacency list is cleared with clear(): the running total is not reduced by the labels of '
-                          'the edges it held')
+                done = False
+                for c in self.companions(ctx, 'T.sub'):
+                    lv = in_entry_loop(c)
+                    k = ctx.label_read(strip_cast(c.args[0]), c.node)
+                    if lv is not None and ctx.key_matches_pair(k, x, lv):
+                        # the label must be read before it is erased in the same iteration
+                        later_erase = [le for le in self.companions(ctx, 'L.erase') if in_entry_loop(le) == lv and
+                                       f.can_reach_forward(le.node, c.node)]
+                        if not later_erase:
+                            self.ok('F-PAIR.T', ctx, dict(function=f.display(), event=ctx.desc(e.node), companion=ctx.desc(c.node),
+                                                          form='single list cleared after a loop that subtracts the label of every entry'))
+                            done = True
+                            break
+                if not done:
+                    self.fail('F-PAIR.T', ctx, site + ' <-> total -= labels of the cleared entries', e.node,
+                              'a whole adjacency list is cleared with clear(): the running total is not reduced by the labels of '
+                              'the edges it held')
             if ctx.undirected:
                 self.R('F-PAIR.M').sites += 1
                 self.fail('F-PAIR.M', ctx, site + ' without mirror removals', e.node,
@@ -1184,6 +1484,17 @@ class PairEngine:
                             if ctx.same_key(old, k) or (old and k and old.a == k.a and old.b == k.b):
                                 if ctx.region(t.node) == ctx.region(c.node) and f.node_dominates(t.node, c.node):
                                     good.append(t)
+                    if not good:
+                        adds = [t for t in self.companions(ctx, 'T.add') if strip_cast(t.args[0]) == strip_cast(c.args[1]) and
+                                ctx.region(t.node) == ctx.region(c.node)]
+                        subs = []
+                        for t in self.companions(ctx, 'T.sub'):
+                            old = ctx.label_read(strip_cast(t.args[0]), t.node)
+                            if (ctx.same_key(old, k) or (old and k and old.a == k.a and old.b == k.b)) and \
+                                    ctx.region(t.node) == ctx.region(c.node) and f.can_reach_forward(t.node, c.node):
+                                subs.append(t)
+                        if len(adds) == 1 and len(subs) == 1:
+                            good = [adds[0]]
                     if len(good) == 1:
                         self.ok('F-PAIR.T', ctx, dict(function=f.display(), event=ctx.desc(c.node),
                                                       companion=ctx.desc(good[0].node), form='overwrite: total += new - old, old read first'))
